@@ -114,6 +114,8 @@ func C16(p *load.Prog, r *oblig.Run) {
 	c16NoIdentity(p, r)
 	c16NilResults(p, r)
 	c16MapLoops(p, r)
+	c16OperandSides(p, r)
+	c16NoEarlyAnswer(p, r)
 	c16Variables(p, r)
 	ops, err := extractOperators(p)
 	if err != nil {
